@@ -192,6 +192,14 @@ example : (demo.insts.map (fun e => (e.1, e.2.ks.recs.map (fun r => (r.1, r.2.ex
     [(2, [("abandon/Privpass1/1", 2)]), (3, [("abandon/Privpass1/1", 1)]), (1, [("abandon/Privpass1/1", 2)])] := by
   decide
 
+/-- non-vacuity of priv_matches_pub / export_import_same_id on the demo system: a signature request that
+    succeeds, and the exported file re-imported under the same id -/
+example : ∃ x, AMap.get demo.insts 1 = some x ∧
+    signWith toyCurve.toScheme x.ks ("abandon/Privpass1/1", [0, 1]) "Privpass1" =
+      .ok (("abandon/Privpass1/1", [0, 1]), ("abandon/Privpass1/1", [0, 1])) := ⟨_, rfl, rfl⟩
+example : demo.files = [{ mnemonic := "abandon", pass := "Privpass1", coin := 1, account := 1, ex := 2, inn := 0 }] := by
+  decide
+
 /-- TIE B: path m/44'/coin'/1'/branch/index (purpose, account = WalletUsage, branches), the id encoding
     bech32 "ac" / version 15 of hash160(compressed account key), the white-space normalisation of an
     imported sentence, and the passphrase pattern — as re-extracted from today's source. -/
